@@ -6,10 +6,15 @@
    The property-shaped checker OrchSpec.spec_ok_trace (the oracle the harness applies to real canvas runs) is
    PROVED to accept every run of the model, and Orch/TraceMeaning.v says what its acceptance means on the
    sequence of starts and ends itself.
-   ASSUMED: the contract of robsd-wait (see OrchDefs.v) and the shell's process control; the shape of the
-   loop in util.sh is pinned by harness/t_orch.py (gen/Gen_Orch.v). *)
+   ASSUMED: the contract of robsd-wait (see OrchDefs.v; no line of robsd-wait.c is checked) and the shell's
+   process control.  The tie to util.sh: harness/t_orch.py writes the statement groups of robsd()'s loop body and
+   of step_exec_job() down in source order (gen/Gen_Orch.v); Orch/ShapeSem.v gives statement lists their meaning
+   and the LAST theorems of this file prove that the lists found in util.sh mean main_step / job_step.
+   Ends of an invocation outside [terminal] (the loop running out of schedule lines) and the skip set of a
+   resumed invocation are stated with `_refuted` witnesses in the section before the tie. *)
 From Robsd Require Import Orch.OrchSpec Orch.OrchProofs Orch.AccountProofs Orch.ResumeProofs.
 From Robsd Require Import Orch.OrchSteps Orch.TraceMeaning Orch.TraceOracle Orch.NonInterf Orch.FreshFile Orch.Statements Orch.ModelShape.
+From Robsd Require Import Orch.ShapeSem Orch.OrchTie Orch.LoopEnd Orch.LoopEndProofs Orch.AccountOracle.
 From RobsdGen Require Import Gen_Orch.
 Local Open Scope Z_scope.
 
@@ -155,8 +160,10 @@ Theorem C04_parallel_start_after_one_gone : forall ncpu exit_of s p rest j,
 Proof. exact parallel_start_after_one_gone. Qed.
 Print Assumptions C04_parallel_start_after_one_gone.
 
-(* the synchronous counterpart: enabled at once when nothing is remembered, blocked while a remembered job runs *)
-Theorem C04_sync_start_enabled_iff_barrier_clear : forall ncpu s p rest,
+(* the synchronous counterpart, TWO implications (not an iff: with jobs remembered that are all gone the next move is
+   the barrier's, which clears them, and the start is the move after): enabled at once when nothing is remembered,
+   blocked while a remembered job runs *)
+Theorem C04_sync_start_enabled_when_barrier_clear : forall ncpu s p rest,
   mode s = AtHead -> todo s = p :: rest -> p_par p = false -> skipped (sfile_ s) (p_name p) = false ->
   (beq (p_name p) END = false -> jobs s = [] ->
    exists s', main_step ncpu s = Some s' /\ evlog s' = evlog s ++ [EStart (p_id p) false] /\
@@ -167,7 +174,7 @@ Proof.
            conj (fun Eend Ej => sync_start_enabled ncpu s p rest Em Et Ep Esk Eend Ej)
                 (fun j Hj Hr => sync_start_blocked ncpu s p rest j Em Et Ep Esk Hj Hr)).
 Qed.
-Print Assumptions C04_sync_start_enabled_iff_barrier_clear.
+Print Assumptions C04_sync_start_enabled_when_barrier_clear.
 
 (* ---- stop at the first synchronous failure ------------------------------------------------------------------ *)
 
@@ -232,10 +239,143 @@ Example C04_example :
   spec_ok_trace steps [] 2 (tev_of nm (evlog s)) (e_status (trap_exit (mode s) (sfile_ s) false)) (has_end (sfile_ s)) = true.
 Proof. vm_compute. repeat split; reflexivity. Qed.
 
+(* ---- ends of an invocation that are not [terminal] states; the skip set of a resumed invocation ----------------- *)
+
+(* PROPERTY READING: whenever the shell leaves robsd() normally the invocation is in a terminal state (end recorded,
+   or a synchronous step failed) - the `while read` loop never simply runs out of schedule lines.  PROVED for a
+   fresh invocation whose configuration has an end step that is not skipped: every theorem above that speaks of
+   [terminal] states then speaks of every way the invocation can end *)
+Theorem C04_loop_never_runs_out_partial : forall ncpu exit_of name_of steps skip,
+  wf_cfg exit_of name_of steps -> fresh_ok steps skip -> (exists p, In p steps /\ p_name p = END) ->
+  forall s, oreach ncpu exit_of name_of steps (skip_file steps skip) s -> fell_off s = false.
+Proof. exact fell_off_unreachable_fresh. Qed.
+Print Assumptions C04_loop_never_runs_out_partial.
+
+(* the same for any initial file of the configuration (a resumed invocation) in which end is not marked skipped *)
+Theorem C04_loop_never_runs_out_resumed_partial : forall ncpu exit_of name_of steps f0,
+  wf_cfg exit_of name_of steps -> file_of_cfg steps f0 -> (exists p, In p steps /\ p_name p = END) ->
+  skipped f0 END = false ->
+  forall s, oreach ncpu exit_of name_of steps f0 s -> fell_off s = false.
+Proof. exact fell_off_unreachable. Qed.
+Print Assumptions C04_loop_never_runs_out_resumed_partial.
+
+(* REFUTED outside the guard - skip { "end" } (inside "skip sets from configuration and command line"): a, end with
+   end skipped and no failure: the loop runs out of lines, the shell exits 0, the exit trap finds the SKIP record of
+   end: report, mail, end hook.  Replayed on the real canvas (harness lane skip-end) *)
+Theorem C04_loop_never_runs_out_refuted :
+  let steps := [mkpstep 1 se_A false 0; mkpstep 2 END false 0] in
+  let s := orun 1 (fun _ => 0) se_nm1 (oinit steps (skip_file steps [END])) [AMain; AJob 1; AJob 1; AMain; AMain] in
+  fell_off s = true /\ mode s = AtHead /\ sfile_ s = [mkrow 1 se_A 0 0; mkrow 2 END 0 1] /\
+  e_status (trap_exit_of s true) = 0 /\ e_report (trap_exit_of s true) = true /\ e_mail (trap_exit_of s true) = true /\
+  e_endhook (trap_exit_of s true) = true.
+Proof. exact skip_end_loop_runs_out. Qed.
+Print Assumptions C04_loop_never_runs_out_refuted.
+
+(* ... and with a PARALLEL last step the loop runs out WITHOUT the barrier: the invocation's exit trap runs while the
+   step is in flight (record -1), status 0; the step's failure (exit 3) is recorded afterwards.  "each only after every
+   previously started step has finished" fails for the end of the invocation itself *)
+Theorem C04_invocation_ends_while_parallel_step_runs_refuted :
+  let s := orun 2 se_ex2 se_nm2 (oinit se_steps2 (skip_file se_steps2 [END]))
+             [AMain; AJob 1; AJob 1; AMain; AMain; AJob 2; AMain] in
+  fell_off s = true /\ running s = [(2, JRunning)] /\
+  sfile_ s = [mkrow 1 se_A 0 0; mkrow 2 se_P (-1) 0; mkrow 3 END 0 1] /\
+  e_status (trap_exit_of s false) = 0 /\ e_report (trap_exit_of s false) = true /\ e_endhook (trap_exit_of s false) = true /\
+  failing_record (sfile_ (orun 2 se_ex2 se_nm2 s [AJob 2])) = true.
+Proof. exact skip_end_exit_trap_while_parallel_step_runs. Qed.
+Print Assumptions C04_invocation_ends_while_parallel_step_runs_refuted.
+
+(* PROPERTY READING: "skipped steps never run", for the skip set of THIS invocation (configuration and -s options).
+   The theorems above take the skip set from the step file ([skip_agrees]); canvas writes skip records only when the
+   invocation starts at step 1 (Orch/LoopEnd.start_file).  REFUTED for a resumed invocation: a, b, c, end; b failed;
+   `canvas -r dir -s c` resumes at step 2, the file stays as it is and c is started.  Replayed on the real canvas
+   (harness lane skip-on-resume).  The `_partial` is C04_checker_accepts_every_run: skip set := what the file says *)
+Theorem C04_command_line_skip_on_resume_refuted :
+  let f := [mkrow 1 se_A 0 0; mkrow 2 hk_B 1 0] in
+  let f0 := start_file 2 hk_steps [hk_C] f in
+  let s := orun 1 (fun _ => 0) hk_nm (oinit (psteps_from 2 hk_steps) f0) [AMain; AJob 2; AJob 2; AMain; AMain] in
+  ResumeDefs.step_next f = Some 2 /\ f0 = f /\ skipped f0 hk_C = false /\ In hk_C (executed hk_nm s).
+Proof. exact command_line_skip_ignored_on_resume. Qed.
+Print Assumptions C04_command_line_skip_on_resume_refuted.
+
+(* at step 1 the same option does produce the skip record *)
+Theorem C04_command_line_skip_at_step_1 : skipped (start_file 1 hk_steps [hk_C] []) hk_C = true.
+Proof. exact start_file_at_1_skips. Qed.
+Print Assumptions C04_command_line_skip_at_step_1.
+
+(* the hook of a synchronous step runs in the loop's own shell.  Whatever robsd_hook() does with the hook's standard
+   input today (gen/Gen_Orch.robsd_hook_stdin, read from util.sh on this run): either it is /dev/null and every run
+   with hooks that read their input is a run of the transition system, or it is inherited - the pipe the loop reads
+   the schedule from - and a hook that reads its input swallows the rest of the schedule: a, b, c, end with no
+   failure ends with status 0, NO end record, NO report, b and c never started; the trace oracle rejects.
+   Replayed on the real canvas (harness lane hook-stdin) *)
+Theorem C04_hook_reading_stdin_decided :
+  (robsd_hook_stdin = HookStdinNull /\
+   forall reads ncpu exit_of name_of sched s,
+     orun_h robsd_hook_stdin reads ncpu exit_of name_of s sched = orun ncpu exit_of name_of s sched) \/
+  (robsd_hook_stdin = HookStdinInherited /\
+   let s := orun_h robsd_hook_stdin (fun _ => true) 1 (fun _ => 0) hk_nm (oinit hk_steps []) [AMain; AJob 1; AJob 1; AMain; AMain] in
+   fell_off s = true /\ sfile_ s = [mkrow 1 se_A 0 0] /\ executed hk_nm s = [se_A] /\
+   e_status (trap_exit_of s true) = 0 /\ e_report (trap_exit_of s true) = false /\ has_end (sfile_ s) = false /\
+   spec_ok_trace hk_steps [] 1 (tev_of hk_nm (evlog s)) (e_status (trap_exit_of s true)) (has_end (sfile_ s)) = false).
+Proof.
+  exact (match robsd_hook_stdin as h return
+           (h = HookStdinNull /\
+            forall reads ncpu exit_of name_of sched s,
+              orun_h h reads ncpu exit_of name_of s sched = orun ncpu exit_of name_of s sched) \/
+           (h = HookStdinInherited /\
+            let s := orun_h h (fun _ => true) 1 (fun _ => 0) hk_nm (oinit hk_steps []) [AMain; AJob 1; AJob 1; AMain; AMain] in
+            fell_off s = true /\ sfile_ s = [mkrow 1 se_A 0 0] /\ executed hk_nm s = [se_A] /\
+            e_status (trap_exit_of s true) = 0 /\ e_report (trap_exit_of s true) = false /\ has_end (sfile_ s) = false /\
+            spec_ok_trace hk_steps [] 1 (tev_of hk_nm (evlog s)) (e_status (trap_exit_of s true)) (has_end (sfile_ s)) = false)
+         with
+         | HookStdinNull => or_introl (conj eq_refl (fun reads ncpu exit_of name_of sched s => orun_h_null reads ncpu exit_of name_of sched s))
+         | HookStdinInherited => or_intror (conj eq_refl hook_reading_stdin_swallows_schedule)
+         end).
+Qed.
+Print Assumptions C04_hook_reading_stdin_decided.
+
+(* a hook that does not read its input changes nothing, whatever it inherits *)
+Theorem C04_hook_not_reading_is_harmless : forall hs ncpu s, main_step_h hs (fun _ => false) ncpu s = main_step ncpu s.
+Proof. exact hook_not_reading_is_the_model. Qed.
+Print Assumptions C04_hook_not_reading_is_harmless.
+
 (* ---- the tie to util.sh ------------------------------------------------------------------------------------- *)
 
-(* the loop of robsd() and step_exec_job as harness/t_orch.py found them in util.sh are the ones main_step /
-   job_step transcribe *)
-Theorem C04_loop_is_the_modelled_one : robsd_loop = modelled_loop /\ step_exec_job_shape = modelled_job.
-Proof. exact (conj (eq_refl modelled_loop) (eq_refl modelled_job)). Qed.
+(* the loop body of robsd() and step_exec_job() as harness/t_orch.py found them in util.sh (statement groups in
+   source order), INTERPRETED (Orch/ShapeSem.v), are main_step and job_step - in every state, hence every run under
+   every schedule is a run of the transition system the theorems above are about.  LReboot and LLockAlive are given
+   no effect (canvas has no reboot option; nobody but this invocation writes the lock file) *)
+Theorem C04_loop_is_the_modelled_one :
+  (forall ncpu exit_of name_of s a,
+     step_of_shape ncpu exit_of name_of robsd_body step_exec_job_body s a = ostep ncpu exit_of name_of s a) /\
+  (forall ncpu exit_of name_of sched s,
+     run_of_shape ncpu exit_of name_of robsd_body step_exec_job_body s sched = orun ncpu exit_of name_of s sched).
+Proof.
+  exact (conj (fun ncpu exit_of name_of s a => step_tie ncpu exit_of name_of robsd_body step_exec_job_body s a (eq_refl modelled_body) (eq_refl modelled_job))
+              (fun ncpu exit_of name_of sched s => run_tie ncpu exit_of name_of robsd_body step_exec_job_body sched (eq_refl modelled_body) (eq_refl modelled_job) s)).
+Qed.
 Print Assumptions C04_loop_is_the_modelled_one.
+
+(* the interpretation tells loops apart: forgetting the oldest pid when the queue is full (seeded change C04),
+   testing for end before the barrier (seeded change C11), and a step_exec_job without `return 1` each run
+   differently from the transition system *)
+Theorem C04_other_loops_are_not_the_model :
+  (let b := mkbody [LSkipTest] [LQueueFull QWDropOldest; LForkJob] [LBarrier; LEnd; LSyncJob] [LReboot; LLockAlive] in
+   let sched := [AMain; AMain; AJob 1; AJob 2; AJob 2; AJob 2; AMain; AMain] in
+   let s := run_of_shape 2 (fun _ => 0) (fun _ => []) b modelled_job (oinit three_par []) sched in
+   let s' := orun 2 (fun _ => 0) (fun _ => []) (oinit three_par []) sched in
+   jobs s = [2; 3] /\ map fst (running s) = [1; 3] /\ jobs s' = [1; 3] /\ map fst (running s') = [1; 3]) /\
+  (let steps := [mkpstep 1 [112]%N true 0; mkpstep 2 END false 0] in
+   let b := mkbody [LSkipTest] [LQueueFull QWKeepStillRunning; LForkJob] [LEnd; LBarrier; LSyncJob] [LReboot; LLockAlive] in
+   let sched := [AMain; AMain] in
+   let s := run_of_shape 2 (fun _ => 0) (fun _ => []) b modelled_job (oinit steps []) sched in
+   let s' := orun 2 (fun _ => 0) (fun _ => []) (oinit steps []) sched in
+   mode s = ODone /\ map fst (running s) = [1] /\ mode s' = AtHead) /\
+  (let steps := [mkpstep 1 [97]%N false 2; mkpstep 2 END false 0] in
+   let jb := [JLogId; JT0; JWriteInflight (-1) (-1); JExec; JT1; JDuration; JDelta; JWriteDone; JHook] in
+   let sched := [AMain; AJob 1; AJob 1; AMain; AMain] in
+   let ex := fun i : Z => if i =? 1 then 2 else 0 in
+   mode (run_of_shape 1 ex (fun _ => []) modelled_body jb (oinit steps []) sched) = ODone /\
+   mode (orun 1 ex (fun _ => []) (oinit steps []) sched) = OFailed).
+Proof. exact (conj drop_oldest_is_not_the_model (conj end_before_barrier_is_not_the_model no_return_is_not_the_model)). Qed.
+Print Assumptions C04_other_loops_are_not_the_model.
